@@ -23,6 +23,13 @@ ORDER_SENSITIVE = {
     "lalr-conflicts": G % "amb" + 'start = e;\ne = e "+" e | e "*" e | e "-" e | "x";\n',
     "nostart": G % "nost" + 'aa = "x";\nbb = "y";\n',
     "many-accepting": G % "many" + 'ID = /[a-z][a-z0-9]*/;\nNUM = /[0-9]+(\\.[0-9]+)?/;\nstart = {ID | NUM | "if" | "in" | "int" | "i"};\n',
+    # terminals whose sort keys are nearly equal (same kind, same length; differing in case, by one character, by an
+    # accent, by a digit or an underscore): any ordering of definitions, states or case arms that leaves a tie to
+    # hash-table iteration shows up as differing output
+    "case-pairs": G % "casep" + 'start = {"e" | "E" | "a" | "A" | "ab" | "AB" | "aB" | "Ab"};\n',
+    "same-length": G % "samelen" + 'start = {"+=" | "-=" | "*=" | "/=" | "<=" | ">=" | "==" | "!="};\n',
+    "name-pairs": G % "namep" + 'A1 = "p";\nA_1 = "q";\nA_ = "r";\nAA = "s";\nA11 = /t+/;\nA_11 = /u+/;\nstart = {A1 | A_1 | A_ | AA | A11 | A_11};\n',
+    "pattern-ties": G % "patt" + 'LO = /[a-m]+/;\nHI = /[n-z]+/;\nUP = /[A-M]+/;\nUQ = /[N-Z]+/;\nstart = {LO | HI | UP | UQ};\n',
     "dup-handles": G % "duph" + 'start = e;\ne = e "+" e | "x";\n@left "+";\n@right "+";\n@none "x" "+";\n',
 }
 DEP_ORDER = {
@@ -69,6 +76,10 @@ def run(ck):
         specs = {rp["base"]: rp["text"]}
     with concurrent.futures.ThreadPoolExecutor(max_workers=12) as ex:
         recs = list(ex.map(fresh_run, [(ck.work, binary, sid, t, r) for sid, t in specs.items() for r in range(k)]))
+    # vacuity guard: these specifications exist to exercise the ordering of generated output, so they must be accepted
+    for sid in ("case-pairs", "same-length", "name-pairs", "pattern-ties", "many-accepting"):
+        if sid in specs and not any(r["base"] == sid and r["detail"].startswith("exit 0") and "lexer.go" in r["detail"] for r in recs):
+            raise vp.Infra("pool specification %s is not accepted, the ordering it probes is not exercised" % sid)
     items = [{"id": sid, "kind": "spec", "text": t} for sid, t in specs.items()]
     vp.write_ndjson(os.path.join(ck.work, "items.ndjson"), items)
     os.makedirs(os.path.join(ck.work, "rg"), exist_ok=True)
